@@ -49,7 +49,7 @@ JOB_OPTS = {'quick': dict(max_paths=3000, max_seconds=400), 'thorough': dict(max
 ALPHA = [['W', 0, 'ALL'], ['W', 1, 'ALL'], ['R', 0, 'ALL'], ['G', 'Rx180', [0]], ['M', 1, 'a']]
 ALPHA_IN = [['W', 0, 'ALL'], ['W', 1, 'ALL'], ['R', 0, 'ALL']]
 OBS = ['ops', 'times', 'dur', 'acq', 'vis', 'plot', 'stim', 'nest']
-MUT = ['add', 'addsub', 'grow', 'apply', 'flatten', 'setreg', 'enter', 'leave']
+MUT = ['add', 'addsub', 'grow', 'grownew', 'apply', 'flatten', 'setreg', 'enter', 'leave']
 
 
 def jobs(tier, seed):
@@ -84,8 +84,11 @@ def jobs(tier, seed):
     deep = {'steps': [{'k': ['S', {'steps': [{'k': ['S', {'steps': [{'k': ['W', 0, 'ALL'], 'rel': None}], 'rep': 3}], 'rel': None}, {'k': ['W', 0, 'ALL'], 'rel': None}]}], 'rel': None},
                       {'k': ['W', 0, 'ALL'], 'rel': None}]}
     one_sub = {'steps': [{'k': ['S', {'steps': [{'k': ['W', 0, 'ALL'], 'rel': None}]}], 'rel': None}, {'k': ['W', 0, 'ALL'], 'rel': None}]}
-    for prog in (deep, one_sub):
-        for events in (['dur', 'apply'], ['times', 'apply'], ['dur', 'grow'], ['ops', 'grow'], ['times', 'grow', 'dur'], ['acq', 'grow']):
+    mid_sub = {'steps': [{'k': ['W', 0, 'ALL'], 'rel': None}, {'k': ['S', {'steps': [{'k': ['W', 0, 'ALL'], 'rel': None}, {'k': ['W', 1, 'ALL'], 'rel': None}]}], 'rel': None},
+                         {'k': ['W', 0, 'ALL'], 'rel': None}]}
+    for prog in (deep, one_sub, mid_sub):
+        for events in (['dur', 'apply'], ['times', 'apply'], ['dur', 'grow'], ['ops', 'grow'], ['times', 'grow', 'dur'], ['acq', 'grow'],
+                       ['dur', 'grownew'], ['ops', 'grownew'], ['times', 'grownew', 'dur'], ['ops', 'grownew', 'grownew'], ['ops', 'grow', 'grownew']):
             for final in ('duration_only', 'times', 'retained'):
                 out.append({'prog': prog, 'events': events, 'final': final, 'name': 'a relation-less nested block grows after a time was read'})
     for _ in range(n_pairs):
@@ -119,7 +122,7 @@ def jobs(tier, seed):
         final = rng.choice(['times', 'times', 'nest', 'unrolled', 'stim', 'retained', 'duration_only', 'held', 'held'])
         if final == 'held':
             # keep the objects after the last structural mutation; afterwards only settings change
-            last = max([i for i, e in enumerate(events) if e in ('add', 'addsub', 'grow', 'apply', 'flatten')], default=-1)
+            last = max([i for i, e in enumerate(events) if e in ('add', 'addsub', 'grow', 'grownew', 'apply', 'flatten')], default=-1)
             events.insert(rng.randint(last + 1, len(events)), 'hold')
             events.append(rng.choice(['enter', 'setreg', 'leave', 'enter']))
         out.append({'prog': prog, 'events': events, 'final': final})
@@ -207,6 +210,12 @@ def play(ctx, params, with_observations: bool, g_out, g_in, stack):
             if subs_:
                 extra += 1
                 subs_[0].obj.add(co.Wait(0, duration_strategy=FixedDurationStrategy(ctx.real(f'd_grow{extra}', lo=0, reuse=True))))
+        elif ev == 'grownew':
+            # ... the same on a channel the block did not use so far (the new operation has no predecessor inside the block)
+            subs_ = [n for n in built.nodes if n.is_sub]
+            if subs_:
+                extra += 1
+                subs_[-1].obj.add(co.Wait(5 + extra, duration_strategy=FixedDurationStrategy(ctx.real(f'd_grownew{extra}', lo=0, reuse=True))))
         elif ev == 'apply':
             holder['circuit'] = c.apply_modifiers()
         elif ev == 'flatten':
@@ -327,7 +336,7 @@ def run(ctx, params):
         return
     # ---- "a time reported after a duration setting changed reflects the change" ------------------------------------------------------
     # fresh build of the *same program* under the final settings, no history at all (only for histories without structural mutations)
-    if not any(e in ('add', 'addsub', 'grow', 'apply', 'flatten') for e in params['events']):
+    if not any(e in ('add', 'addsub', 'grow', 'grownew', 'apply', 'flatten') for e in params['events']):
         final_globals = g_in if fa['inside_override'] else g_out
         with final_globals.override():
             built = cm.build(ctx, params['prog'])
